@@ -145,6 +145,28 @@ def m_weak_upgrade(e, st, fr, t, args):
     return NONE
 
 
+def m_strong_count(e, st, fr, t, args):
+    h = deref_arg(e, st, args[0])
+    if not (is_h(h, 'Weak') or is_h(h, 'Arc')):
+        return NotImplemented
+    return VScalar(arc_inner(st, h).extra['strong'])
+
+
+def m_weak_count(e, st, fr, t, args):
+    h = deref_arg(e, st, args[0])
+    if not (is_h(h, 'Weak') or is_h(h, 'Arc')):
+        return NotImplemented
+    inner = arc_inner(st, h)
+    return VScalar(inner.extra['weak'] if inner.extra['strong'] > 0 else 0)
+
+
+def m_ptr_eq(e, st, fr, t, args):
+    a, b = deref_arg(e, st, args[0]), deref_arg(e, st, args[1])
+    if not (isinstance(a, VAgg) and isinstance(b, VAgg) and a.extra and b.extra and 'oid' in a.extra and 'oid' in b.extra):
+        return NotImplemented
+    return VScalar(a.extra['oid'] == b.extra['oid'])
+
+
 def m_weak_clone(e, st, fr, t, args):
     w = deref_arg(e, st, args[0])
     if not is_h(w, 'Weak'):
@@ -1145,7 +1167,20 @@ def builtin_fn_item(e, st, text, args):
 def m_now_or_never(e, st, fr, t, args):
     """FutureExt::now_or_never(fut): poll once with a no-op waker; Ready(v) -> Some(v), Pending -> None; fut is dropped"""
     fut = args[0]
-    if not (isinstance(fut, VAgg) and (is_h(fut) or fut.name in ('leaf', 'sink::Send'))):
+    if isinstance(fut, VAgg) and fut.name == 'StreamNext':
+        # Next<'_, PollFn<Box<dyn FnMut>>> (the mailbox): one call of the boxed receive closure, Poll -> Option
+        sref = peel(e, st, fut.fields[('f', 0)])
+        pf = _load(e, st, sref)
+        if isinstance(pf, VAgg) and pf.name == 'PollFn':
+            cref = peel(e, st, pf.fields[('f', 0)])
+            clo = _load(e, st, cref)
+            body = e.resolve_closure(st, clo)
+            st.meta['conts'] = st.meta.get('conts', []) + [('poll_to_option', (t.dest, t.target, st.meta.get('blocked_on', frozenset())))]
+            e.push_call(st, body, [VRef(cref.root, cref.path, True), VSym('cx_noop')], ret_dest=None, ret_bb=-1, unwind_bb=t.unwind, tag='cont')
+            return None
+    if isinstance(fut, VAgg) and fut.name == 'leaf' and fut.extra.get('kind') == 'userstream':
+        pass
+    elif not (isinstance(fut, VAgg) and (is_h(fut) or fut.name in ('leaf', 'sink::Send'))):
         raise Unsupported(f"now_or_never on {fut!r}")
     oid = st.alloc(fut)
     ref = VRef(('obj', oid), (), True)
@@ -1162,6 +1197,19 @@ def m_now_or_never(e, st, fr, t, args):
         f2.bb = t.target
         outs.append(s2)
     return outs
+
+
+def c_poll_to_option(e, st, data, rv):
+    dest, target, saved = data
+    st.meta['blocked_on'] = saved              # a discarded poll does not block the task
+    d = e.concrete_int(st, e.discriminant_of(st, rv))
+    if d is None:
+        raise Unsupported("now_or_never: symbolic poll result")
+    val = some(e.get_field(rv, ('v', 'Ready', 0))) if d == 0 else NONE
+    f = st.frames[-1]
+    e.write_place(st, f, dest, val)
+    f.bb = target
+    return None
 
 
 def m_int_max(e, st, fr, t, args):
@@ -1181,6 +1229,7 @@ def m_int_min(e, st, fr, t, args):
 def install(eng: Engine, resolver):
     eng.dropper = Dropper(eng, resolver)
     eng.conts['filter_keep'] = c_filter_keep
+    eng.conts['poll_to_option'] = c_poll_to_option
     eng.models.insert(0, (R(r'^Option::<.*>::filter::<'), m_option_filter_fn))
     M = eng.models
     add = lambda rx, h: M.append((R(rx), h))
@@ -1194,6 +1243,9 @@ def install(eng: Engine, resolver):
     add(r'^(std::sync::)?Weak::<.*>::upgrade$', m_weak_upgrade)
     add(r'^<(std::sync::)?Weak<.*> as Clone>::clone$', m_weak_clone)
     add(r'^(std::sync::)?Weak::<.*>::clone$', m_weak_clone)
+    add(r'^(std::sync::)?(Weak|Arc)::<.*>::strong_count$', m_strong_count)
+    add(r'^(std::sync::)?(Weak|Arc)::<.*>::weak_count$', m_weak_count)
+    add(r'^(std::sync::)?(Weak|Arc)::<.*>::ptr_eq$', m_ptr_eq)
     add(r'^<Arc<.*> as Deref>::deref$', m_arc_deref)
     add(r'^<Box<.*> as Deref(Mut)?>::deref(_mut)?$', m_arc_deref)
     add(r'^<Box<.*> as Drop>::drop$', lambda e, st, fr, t, a: UNIT)    # explicit dealloc after moving the content out
